@@ -830,7 +830,7 @@ def run(chk: Check) -> None:
         c = json.loads(f.read_text())
         cases.append((c.get("case", c), f.name))
     # every learner at least once per suite, then random fill
-    n_loss, n_meta, n_track = (12, 12, 30) if quick else (60, 70, 160)
+    n_loss, n_meta, n_track = (12, 12, 30) if quick else (150, 170, 400)
     for nm in LOSS_ALGOS:
         cases.append((gen_loss_case(rng, chk.tier, nm), None))
     for _ in range(max(0, n_loss - len(LOSS_ALGOS))):
